@@ -462,6 +462,10 @@ pub fn mutants_opt(g: &mut G, v: &Value, limit: usize, nulls: bool) -> Vec<(Stri
             }
         }
         g.shuffle(&mut edits);
+        // the openness probe (an undeclared member) is always among the edits of an object
+        if let Some(i) = edits.iter().position(|(t, _)| t == "add-member") {
+            edits.swap(0, i);
+        }
         for (tag, e) in edits.into_iter().take(3) {
             if let Some(e) = e {
                 if let Some(m) = set(v, &p, e) {
